@@ -141,7 +141,7 @@ rbn *x__ZSt18_Rb_tree_decrementPSt18_Rb_tree_node_base(rbn *x) { if (x->f0 == 0 
 rbn *x__ZSt18_Rb_tree_decrementPKSt18_Rb_tree_node_base(rbn *x) { if (x->f0 == 0 && x->f1 && x->f1->f1 == x) return x->f3; return rb_dec(x); }
 
 /* exceptions */
-static const void *__vf_sel_ti;
+static VF_TLS const void *__vf_sel_ti;      /* per thread, like the pending-exception state (VF_TLS: vf_rt.h) */
 static int vf_ti_match(const void *thrown, const void *want)
 {
   if (thrown == want) return 1;
